@@ -665,7 +665,7 @@ def run(ctx: Ctx):
     closed = [b for b in closed if 0 < b["burn"]["te"] <= b["hor"]]
     refuted = K.run_as_coded(ctx, "ascoded", ("Semigroup",), BurnChoice='"both"', **small)
     refuted_stale = K.run_as_coded(ctx, "stale", ("ExactAtBoundaries",), deviation="StaleThrust", BurnChoice='"both"', **small)
-    cov = K.run_coverage(ctx, "cov", [a for a in K.ACTIONS if a != "Deliver"], BurnChoice='"both"', **small)
+    cov = K.run_coverage(ctx, "cov", [a for a in K.ACTIONS if a not in ("Deliver", "PoseImp", "ApplyImpulse")], BurnChoice='"both"', **small)
     ctx.extra["spec_mutants_killed"] = {"EndNeedsLanding(D10)": refuted, "StaleThrust(thrust survives a call without events)": refuted_stale}
     ctx.extra["action_coverage"] = cov
     ctx.extra["behaviours"] = len(behs)
